@@ -202,13 +202,18 @@ func buildConnModel(v *tunView) *connModel {
 			switch x.F.Status {
 			case 0:
 				cur = &connEpoch{Channel: x.F.Channel, Start: x.At, Ambig: -1, StallUntil: x.At.T}
+				// The receive loop queues for the sender lock behind the Sends that were in
+				// progress or queued when it read the response (hand-over in arrival order): it
+				// starts to work when the last of them has returned.
 				for _, sc := range r.h.Sends {
 					if sc.Inv.Seq < x.At.Seq && (!sc.Done || sc.Ret.Seq > x.At.Seq) {
 						cur.Pending++
+						if !sc.Done {
+							cur.StallUntil = x.At.T + time.Duration(len(r.h.Sends)+1)*(r.c.T+v.eps)
+						} else if sc.Ret.T > cur.StallUntil {
+							cur.StallUntil = sc.Ret.T
+						}
 					}
-				}
-				if cur.Pending > 0 {
-					cur.StallUntil = x.At.T + time.Duration(cur.Pending)*(r.c.T+v.eps)
 				}
 				m.epochs = append(m.epochs, cur)
 				mode = mdProcess
@@ -403,17 +408,67 @@ func checkC03(v *tunView, m *connModel) {
 	// with an error status consumes a number too; where it is uncertain whether a failed Send
 	// consumed one, both continuations are allowed). N2: a request following an unacknowledged
 	// one on the same channel reuses its number (stop-and-wait), or restarts at 0.
+	// Requests are grouped by connection epoch (from the connection model), not by channel
+	// value: a gateway may hand out the same channel id again. A request first transmitted while
+	// the receive loop was still waiting for the sender lock (the epoch's stall window) may
+	// belong to either epoch; if the channel value does not tell, it is not judged and the
+	// numbering state it touches is forgotten.
 	type chanState struct {
-		last  *reqTx
-		next  map[uint8]bool // possible numbers of the next acknowledged request
-		acked bool
+		last *reqTx
+		next map[uint8]bool // possible numbers of the next acknowledged request (nil: unknown)
 	}
-	chans := map[uint8]*chanState{}
+	groups := map[int]*chanState{}
+	groupOf := func(q *reqTx) (int, bool) {
+		if m.giveUp {
+			return 0, false
+		}
+		for k := len(m.epochs) - 1; k >= 0; k-- {
+			ep := m.epochs[k]
+			if ep.Start.Seq > q.at[0].Seq {
+				continue
+			}
+			if k > 0 && q.at[0].T <= ep.StallUntil+eps {
+				prev := m.epochs[k-1]
+				if q.ch != ep.Channel && q.ch == prev.Channel {
+					return k - 1, true
+				}
+				if q.ch == ep.Channel && q.ch != prev.Channel {
+					return k, true
+				}
+				// cannot tell: forget what we knew about both
+				delete(groups, k)
+				delete(groups, k-1)
+				return 0, false
+			}
+			return k, true
+		}
+		return 0, false
+	}
 	for _, q := range order {
-		cs := chans[q.ch]
+		gk, okg := groupOf(q)
+		if !okg {
+			continue
+		}
+		cs := groups[gk]
 		if cs == nil {
 			cs = &chanState{next: map[uint8]bool{0: true}}
-			chans[q.ch] = cs
+			groups[gk] = cs
+			// Is this the first request first transmitted after the (re)connect? Then it is the
+			// connection's first request, and - unless it left while the receive loop was still
+			// waiting for the sender lock - it must carry 0.
+			first := true
+			for _, o := range order {
+				if o != q && o.at[0].Seq > m.epochs[gk].Start.Seq && o.at[0].Seq < q.at[0].Seq {
+					first = false
+				}
+			}
+			if first && q.seq != 0 && q.at[0].T > m.epochs[gk].StallUntil+eps {
+				e.Violate("C03", "first-seq-not-zero", "the first request after the (re)connect at %v (id=%d, channel %d, first sent %v) carries sequence number %d, not 0", m.epochs[gk].Start.T, q.call.ID, q.ch, q.at[0].T, q.seq)
+				e.Violate("C09", "seq-not-restarted", "the first request after the (re)connect at %v (id=%d, channel %d, first sent %v) carries sequence number %d, not 0", m.epochs[gk].Start.T, q.call.ID, q.ch, q.at[0].T, q.seq)
+			}
+			if !first {
+				cs.next = nil
+			}
 		}
 		ok := q.call.Done && q.call.OK
 		maybe := !ok && errAck(q)
@@ -426,7 +481,7 @@ func checkC03(v *tunView, m *connModel) {
 				want[p.seq+1] = true
 			}
 			if !want[q.seq] {
-				e.Violate("C03", "seq-not-consecutive", "channel %d: request id=%d carries sequence number %d after id=%d carried %d (acknowledged=%v): expected one of %v", q.ch, q.call.ID, q.seq, p.call.ID, p.seq, pok, keysU8(want))
+				e.Violate("C03", "seq-not-consecutive", "connection %d (channel %d): request id=%d carries sequence number %d after id=%d carried %d (acknowledged=%v): expected one of %v", gk, q.ch, q.call.ID, q.seq, p.call.ID, p.seq, pok, keysU8(want))
 			}
 			if q.seq == 0 && p.seq == 255 && pok {
 				e.Probe("outbound-seq-wrap")
@@ -434,11 +489,11 @@ func checkC03(v *tunView, m *connModel) {
 		}
 		cs.last = q
 		if ok {
-			if !cs.next[q.seq] {
-				e.Violate("C03", "acked-seq-not-consecutive", "channel %d: acknowledged request id=%d carries sequence number %d, but the acknowledged requests before it on this channel make %v the next number", q.ch, q.call.ID, q.seq, keysU8(cs.next))
+			if cs.next != nil && !cs.next[q.seq] {
+				e.Violate("C03", "acked-seq-not-consecutive", "connection %d (channel %d): acknowledged request id=%d carries sequence number %d, but the acknowledged requests before it on this connection make %v the next number", gk, q.ch, q.call.ID, q.seq, keysU8(cs.next))
 			}
 			cs.next = map[uint8]bool{q.seq + 1: true}
-		} else if maybe && cs.next[q.seq] {
+		} else if maybe && cs.next != nil && cs.next[q.seq] {
 			cs.next[q.seq+1] = true
 		}
 	}
